@@ -269,6 +269,75 @@ def ret_cases(tier, seed):
     return out
 
 
+def late_partner_cases(tier, seed):
+    """the algebraic probe with a LATE partner: the last market of the correlated block starts its walk at time s.  Up to s
+    the others follow the law of the block without it (the leading rows of the same Cholesky factor), the late market holds
+    its initial value; from s on all of them follow the full law - the correlations configured before the start included"""
+    rng = random.Random(sub_seed(seed, "late-partner"))
+    out = []
+    for _ in range(16 if tier == "quick" else 300):
+        den, rows = rng.choice([x for x in ROWSETS if len(x[1]) >= 2])
+        k = len(rows)
+        s0 = rng.choice([2, 3, 7])
+        vols = [rng.choice([1, 2, 4, 8]) for _ in range(k)]
+        drifts = [rng.choice([0, 1, -2, 4]) for _ in range(k)]
+        zs = []
+        for i in range(k):
+            z = [0] * k
+            z[i] = 1
+            zs.append(z)
+        zs.append([1] * k)
+        zs.append([(-1) ** i * (i + 1) for i in range(k)])
+        sim = Simulator(prng=random.Random(1))
+        f = sim.fundamentals
+        corr = [[sum(a * b for a, b in zip(rows[i], rows[j])) for j in range(k)] for i in range(k)]
+        steps = len(zs) * 2
+        try:
+            for i in range(k):
+                f.add_market(market_id=i, initial=100.0 * (i + 1), drift=drifts[i] / 1024.0, volatility=vols[i] / 64.0,
+                             **({"start_at": s0} if i == k - 1 else {}))
+            for i in range(k):
+                for j in range(i + 1, k):
+                    if corr[i][j] != 0:
+                        x, y = (i, j) if rng.random() < 0.5 else (j, i)
+                        f.set_correlation(x, y, corr[i][j] / float(den * den))
+            f._np_prng = _StubNp(zs)
+            early = {i: f.get_fundamental_prices(market_id=i, times=range(0, s0 + 1)) for i in range(k)}
+            late = {i: f.get_fundamental_prices(market_id=i, times=range(s0, s0 + steps + 1)) for i in range(k)}
+        except Exception as ex:  # noqa: BLE001
+            out.append({"c": "stat", "what": "late-partner-raised-" + type(ex).__name__, "ok": False})
+            continue
+        out.append({"c": "stat", "what": "late-partner-holds-initial-value-until-its-start", "ok": bool(all(x == 100.0 * k for x in early[k - 1]))})
+        out.append({"c": "stat", "what": "late-partner-value-at-start-differs", "ok": bool(all(late[i][0] == early[i][s0] for i in range(k)))})
+        # before the start: the block without the late market
+        obs = [[int(round(math.log(early[i][t + 1] / early[i][t]) * 1e6)) for i in range(k - 1)] for t in range(s0)]
+        out.append({"c": "ret", "den": den, "rows": [r[:k - 1] for r in rows[:k - 1]], "corr": [r[:k - 1] for r in corr[:k - 1]],
+                    "vols": vols[:k - 1], "drifts": drifts[:k - 1], "zs": [zs[t % len(zs)][:k - 1] for t in range(s0)], "obs": obs})
+        # from the start on: the full block (the generator has handed out s0 columns by then)
+        obs2 = [[int(round(math.log(late[i][t + 1] / late[i][t]) * 1e6)) for i in range(k)] for t in range(steps)]
+        out.append({"c": "ret", "den": den, "rows": rows, "corr": corr, "vols": vols, "drifts": drifts,
+                    "zs": [zs[(s0 + t) % len(zs)] for t in range(steps)], "obs": obs2})
+    # the plural getter takes its times in any order (and hands the prices back in that order)
+    for order in ("descending", "shuffled", "largest-first"):
+        sim = Simulator(prng=random.Random(2))
+        f = sim.fundamentals
+        f.add_market(market_id=0, initial=100.0, drift=0.001, volatility=0.0)
+        times = list(range(0, 260))
+        if order == "descending":
+            times.reverse()
+        elif order == "shuffled":
+            rng.shuffle(times)
+        else:
+            times = [259] + times[:259]
+        try:
+            ps = f.get_fundamental_prices(market_id=0, times=times)
+            ok = len(ps) == len(times) and all(abs(p - 100.0 * math.exp(0.001 * t)) <= 1e-9 * 100.0 for p, t in zip(ps, times))
+            out.append({"c": "stat", "what": "plural-getter-with-%s-times" % order, "ok": bool(ok)})
+        except Exception as ex:  # noqa: BLE001
+            out.append({"c": "stat", "what": "plural-getter-with-%s-times-raised-%s" % (order, type(ex).__name__), "ok": False})
+    return out
+
+
 def late_cases(tier, seed):
     """rarely used entry points: a market whose walk starts late (add_market(start_at=s)) holds its initial value up to s
     and walks from there; a market configured through the runner with a drift but no volatility follows the closed form"""
@@ -385,4 +454,7 @@ def all_lines(tier, seed):
         lines.append({"mode": "cases", "cs": rc[i:i + 50], "kind": "ret"})
     lines.append({"mode": "cases", "cs": stat_cases(tier, seed), "kind": "stat"})
     lines.append({"mode": "cases", "cs": late_cases(tier, seed), "kind": "late"})
+    lp = late_partner_cases(tier, seed)
+    for i in range(0, len(lp), 50):
+        lines.append({"mode": "cases", "cs": lp[i:i + 50], "kind": "late-partner"})
     return lines
